@@ -84,6 +84,13 @@ func (g *gen) bigNumberStream() {
 				schema := `{` + h + ex.members + `"type":"object","properties":{"n":{"` + p.kw + `":` + p.val + `}},"required":["n"]}`
 				in := &Input{Schema: schema, Data: `{"n":` + p.inst + `}`, Expect: p.expect, Kind: "big-number:" + p.kw + ":" + ex.name}
 				cls := g.add(in)
+				// the same pair through the Processor facade: identical outcome class required
+				fin := *in
+				fin.Mode, fin.Kind = 1, "big-number-facade:"+p.kw+":"+ex.name
+				if fcls := g.add(&fin); fcls != cls {
+					g.rep.Fail("c18-facade-changes-verdict",
+						fmt.Sprintf("%s: verdict %s through Processor.ValidateData, %s through json.Validator", ex.name, className[fcls], className[cls]), &fin)
+				}
 				if ei == 0 {
 					first = cls
 				} else if cls != first {
